@@ -120,7 +120,7 @@ PROPS = {
     assumptions=['ServeAgent as repaired for findings F2 (length guards) and F3 (recover around the forwarded standard request)'],
  ),
  'C13': dict(
-    group='serve', only=['rpc', 'slots'], ops=['rpc', 'slots'],
+    group='serve', only=['rpc', 'slots'], ops=['rpc', 'slots', 'trunc'],
     klass=lambda c: c['op'] + ':' + (c['args'][0] if c['op'] == 'rpc' else c['args'][2]) + ':' + ((c['model'] or ['?', '?'])[-1].split(' ')[0].split(':')[0])[:12],
     modules=['Ysshra.Props.C13', 'Ysshra.Bridge.Wire', 'Ysshra.Bridge.SnapYubi', 'Ysshra.Bridge.SnapParse'],
     theorem_files=['Props/C13.lean', 'Bridge/SnapYubi.lean', 'Bridge/SnapParse.lean'],
